@@ -483,13 +483,14 @@ def run(ck, bdir, tier):
                 % (fam, idx, "; ".join(call_line(c) for c in P["progs"][0]) or "-",
                    "; ".join(call_line(c) for c in P["progs"][1]) or "-"))
         for sig, text in r_["findings"]:
-            ck.violation("%s\n%s" % (text, head), bundle, sig=sig)
+            ck.violation("runtime mark API [%s]\n%s\n%s" % (sig, text, head), bundle, sig=sig)
         if i in rejected:
             line, rec, tail = rejected[i]
             bundle["tlc_tail.txt"] = tail
-            ck.violation("ovniemu behaviour on the trace written by the mark API is not explained by EmuTrace with "
-                         "the mark table %s at record #%d: %s\nemulator verdict: %s\n%s"
-                         % (json.dumps(P["marks"]), line, json.dumps(rec)[:1200], r_["emu"], head),
+            ck.violation("runtime mark API [emu:%s]\novniemu behaviour on the trace written by the mark API is not "
+                         "explained by EmuTrace with the mark table %s at record #%d: %s\nemulator verdict: %s\n%s"
+                         % (rec.get("m") or rec.get("e"), json.dumps(P["marks"]), line, json.dumps(rec)[:1200],
+                            r_["emu"], head),
                          bundle, sig="emu:%s" % (rec.get("m") or rec.get("e")))
         if not r_["findings"] and i not in rejected and i not in skipped:
             agree += 1
